@@ -155,8 +155,9 @@ def run(ctx):
             d = random_device(ctx.rng)
             trail = list(b["trail"])
             hbend = next((x for x in trail if x in ("ok", "errorresult", "dongleerror", "timeout")), None)
-            modes = [x for x in trail if x in MODEB]
-            d.exit_modes = [MODEB[m] for m in modes]
+            exits = [x for x in trail if x.split("+")[0] in MODEB]
+            d.exit_modes = [MODEB[m.split("+")[0]] for m in exits]
+            d.exit_drops = [None if m.endswith("+kept") else ctx.rng.choice(["read", "write"]) for m in exits]
             world, proto = mgr.serving_manager(device=d)
             req, st = reqs.make("uiHeartbeat", ctx.rng)
             if hbend in ("errorresult", "dongleerror", "timeout"):
@@ -189,6 +190,8 @@ def run(ctx):
             o = mgr.handle_line(proto, json.dumps(req).encode())
             rp = o.reply() or {}
             t = project(cmd, req, rp, d, st.get("key"))
+            if cmd == "uiHeartbeat" and False:
+                pass
             if cmd == "uiHeartbeat":
                 t["finalmode"] = {MODE_SIGNER: "signer", MODE_UIHB: "uihb", MODE_BOOT: "boot"}.get(d.mode, "unknown")
             add(t, {"src": "random", "cmd": cmd, "version": version, "code": t["code"]})
